@@ -26,6 +26,7 @@ def shards(tier):
 def cases(draw):
     fam = draw(gen.families(PROF))
     fam["shared_opts"] = draw(st.booleans())
+    fam["local_classes"] = draw(st.integers(0, 3)) == 0
     cg = draw(decl.cg_options())
     items = []
     for _ in range(3):
@@ -56,6 +57,38 @@ def cases(draw):
                 changed = (set_path(vals, path, new), list(path))
         items.append({"vals": vals, "raw": raw, "changed": changed})
     return {"fam": fam, "cg": cg, "items": items}
+
+
+def navigate(obj, path):
+    for s in path:
+        obj = getattr(obj, s) if isinstance(s, str) else obj[s]
+    return obj
+
+
+def change_in_place(obj, path, new):
+    cur = navigate(obj, path[:-1])
+    if isinstance(path[-1], str):
+        setattr(cur, path[-1], new)
+    else:
+        cur[path[-1]] = new
+    return True
+
+
+def list_paths(fam, vals, path=()):
+    """paths to every repeated field (with int or byte-string elements) of a value tree"""
+    out = []
+    p = ir.pkt_by_name(fam, vals["__cls__"])
+    for f in p["fields"]:
+        v = vals.get(f["name"])
+        if f["k"] == "seq" and isinstance(v, list) and f["elem"]["k"] in ("int", "data"):
+            out.append((path + (f["name"],), f))
+        elif f["k"] == "seq" and isinstance(v, list):
+            for i, x in enumerate(v):
+                if isinstance(x, dict):
+                    out.extend(list_paths(fam, x, path + (f["name"], i)))
+        elif isinstance(v, dict):
+            out.extend(list_paths(fam, v, path + (f["name"],)))
+    return out
 
 
 def safe(ctx, case, what, fn):
@@ -118,6 +151,24 @@ def run_case(ctx, c):
                         ctx.violation(case(sig="eq-wrong:" + what, desc="%s: == gives %r, != gives %r" % (what, rr, nn)))
             if pseudo:
                 ctx.nt((live.src, name, "defaults"))
+            # two default-constructed packets, ONE of them changed in place (a leaf at any depth assigned, a list appended to)
+            pk = ir.pkt_by_name(fam, name)
+            dflt = ir.defaults(fam, pk)
+            ls = [(path, f, v) for (path, f, v) in leaves(fam, dflt) if f["k"] in ("int", "bits", "data") and isinstance(v, (int, bytes))]
+            ls.sort(key=lambda t: (-len(t[0]), repr(t[0])))
+            for (path, f, v) in ls[:2] + ls[-2:]:
+                new = (v ^ 1) if isinstance(v, int) else ((bytes([v[0] ^ 1]) + v[1:]) if v else b"!")
+                a2, b2 = cls(), cls()
+                if safe(ctx, case, "in-place-change", lambda: change_in_place(a2, path, new)) is None:
+                    continue
+                expect(ctx, case, a2, b2, False, "default-changed-in-place:depth%d" % len([x for x in path if isinstance(x, str)]))
+                ctx.nt((live.src, name, "in-place", repr(path)))
+            for (path, f) in list_paths(fam, dflt)[:3]:
+                a2, b2 = cls(), cls()
+                if safe(ctx, case, "in-place-append", lambda: (navigate(a2, path).append(1 if f["elem"]["k"] == "int" else b"x"), True)[1]) is None:
+                    continue
+                expect(ctx, case, a2, b2, False, "default-list-appended-in-place")
+                ctx.nt((live.src, name, "append", repr(path)))
         for it in c["items"]:
             vals = it["vals"]
             case = lambda **kw: decl.describe_case(fam, cg, values=vals, raw=it["raw"], changed=it["changed"][1] if it["changed"] else None, **kw)
